@@ -6,6 +6,7 @@ import ast
 from ..core import AnalysisError, call_name, dotted, kwarg, norm, walk_no_nested
 from ..guards import A, And, Not, Or, T, implies, path_formula, show_formula, sites
 from ..registry import describe, rule
+from .. import tmatch as tm
 from ..util import calls_named, peel, returns_of
 
 SP = "pgmpy/sampling/Sampling.py"
@@ -184,7 +185,12 @@ def pairing(rc):
             rc.fail(f, maps[0], "reduce maps must be built for the node being sampled", construct=f"{q} variable")
         # evidence list derives from the node's own CPD
         defs = [n for n in walk_no_nested(f.node) if isinstance(n, ast.Assign) and dotted(n.targets[0]) == ev]
-        okd = any(norm(n.value) in ("cpd.variables[1:]", "cpd.get_evidence()", "cpd.variables[:0:-1]") for n in defs)
+        okd = False
+        for n in defs:
+            for t_ in ("_c.variables[1:]", "_c.get_evidence()"):
+                b_ = tm.is_(n.value, t_)
+                if b_ is not None and loopvar is not None and tm.has(f.node, "_c = self.model.get_cpds(_n)", {"_c": b_["_c"], "_n": loopvar}):
+                    okd = True
         if not okd:
             rc.fail(f, maps[0], "the parent list must come from the sampled node's own CPD", construct=f"{q} evidence source")
         # unique rows of the TRANSPOSED stack (rows = samples) key the maps
@@ -192,36 +198,54 @@ def pairing(rc):
         if not uq or not (isinstance(kwarg(uq[0], "axis"), ast.Constant) and kwarg(uq[0], "axis").value == 0):
             rc.fail(f, f.node, "parent configurations are the ROWS of the transposed stack (one per sample)", construct=f"{q} unique rows")
     m = repo.func(SB, "BayesianModelInference.pre_compute_reduce_maps")
-    d = {n.targets[0].id: n.value for n in walk_no_nested(m.node) if isinstance(n, ast.Assign) and isinstance(n.targets[0], ast.Name)}
-    ri = d.get("reduce_index")
-    ok = isinstance(ri, ast.ListComp) and norm(ri.elt) == f"variable_cpd.variables.index({dotted(ri.generators[0].target)})" and dotted(ri.generators[0].iter) == "evidence"
-    rc.ob(f"pre_compute_reduce_maps: reduce_index = {norm(ri) if ri is not None else None}")
+    _, bv = tm.find(m.node, "_VC = self.model.get_cpds(variable)")
+    _, br = tm.find(m.node, "_RI = [_VC.variables.index(_v) for _v in evidence]", bv) if bv is not None else (None, None)
+    ok = br is not None and bool(tm.find_all(m.node, "BayesianModelInference._reduce_marg(_VC, evidence, _RI, _sc)", br, nested=True))
+    rc.ob(f"pre_compute_reduce_maps: axis index list built by name, in the order of `evidence`, and handed to _reduce_marg: {ok}")
     if not ok:
         rc.fail(m, m.node, "CPD axes must be located by NAME for each evidence variable, in the order of `evidence`", construct="reduce_index")
     rm = repo.func(SB, "BayesianModelInference._reduce_marg")
-    txt = norm(rm.node, 100000)
-    if "slice_[index] = values[i]" not in txt or "enumerate(reduce_index)" not in txt:
+    P = rm.params  # variable_cpd, variable_evid, reduce_index, sc
+    okp = False
+    for lp in [n for n in walk_no_nested(rm.node) if isinstance(n, ast.For)]:
+        b_ = tm.is_(lp, "for _i, _ix in enumerate(_ri):\n    _SL[_ix] = _VALS[_i]", {"_ri": P[2]})
+        if b_ is not None and tm.has(rm.node, "_RV = _vc.values[tuple(_SL)]", {"_vc": P[0], "_SL": b_["_SL"]}):
+            okp = True
+    if not okp:
         rc.fail(rm, rm.node, "the i-th state of a combination must index the axis found for the i-th evidence variable", construct="reduce_marg pairing")
-    if "marg_values / marg_values.sum()" not in txt:
+    if not any(tm.is_(r.value, "_M / _M.sum()") is not None for r in returns_of(rm) if r.value is not None):
         rc.fail(rm, rm.node, "the reduced column must be normalised before sampling", construct="reduce_marg normalise")
     rc.ob("_reduce_marg pairs values[i] with reduce_index[i] and normalises")
-
 
 @rule("C07.weights", "likelihood weighting, rejection and return conventions", floor=6)
 def weights(rc):
     repo = rc.repo
     f = repo.func(SP, "BayesianModelSampling.likelihood_weighted_sample")
 
+    _, bed = tm.find(f.node, "_ED = dict(evidence)")
+    ED = bed["_ED"] if bed else None
+    main = [n for n in walk_no_nested(f.node) if isinstance(n, ast.For) and isinstance(n.target, ast.Name) and any(isinstance(x, ast.AugAssign) for x in ast.walk(n))]
+    if not main or ED is None:
+        raise AnalysisError("likelihood_weighted_sample: node loop / evidence dictionary not found")
+    NODE = main[0].target.id
+    _, bdf = tm.find(f.node, "_S = pd.DataFrame(columns=list(self.model.nodes()))")
+    DF_ = bdf["_S"] if bdf else None
+    par_names = {b["_P"] for pat in ("_P = _c.get_evidence()", "_P = _c.variables[1:]") for _, b in tm.find_all(main[0], pat)}
+    ev_vals = {b["_EV"] for _, b in tm.find_all(main[0], "_EV = _ED[_n]", {"_ED": ED, "_n": NODE})}
+
     def atomize(e):
-        if isinstance(e, ast.Compare) and isinstance(e.ops[0], ast.In) and dotted(e.left) == "node" and dotted(e.comparators[0]) == "evidence_dict":
+        if isinstance(e, ast.Compare) and isinstance(e.ops[0], ast.In) and dotted(e.left) == NODE and dotted(e.comparators[0]) == ED:
             return A("is_evidence")
-        if dotted(e) == "evidence":
+        if isinstance(e, ast.Name) and e.id in par_names:
             return A("has_parents")
         return None
 
+    def _mentions_ev(v):
+        return any(isinstance(x, ast.Name) and (x.id == ED or x.id in ev_vals) for x in ast.walk(v))
+
     w_sites = sites(f.node, lambda n: isinstance(n, ast.AugAssign) and "_weight" in norm(n.target))
     draw_sites = sites(f.node, lambda n: isinstance(n, ast.Call) and call_name(n) in ("sample_discrete", "sample_discrete_maps"))
-    fix_sites = sites(f.node, lambda n: isinstance(n, ast.Assign) and norm(n.targets[0]) == "sampled[node]" and "evidence" in norm(n.value))
+    fix_sites = sites(f.node, lambda n: isinstance(n, ast.Assign) and tm.is_(n.targets[0], "_S[_n]", {"_S": DF_ or "?", "_n": NODE}) is not None and _mentions_ev(n.value))
     for s in w_sites:
         fm = path_formula(s, atomize, drop_validation=True)
         rc.ob(f"weight update {norm(s.node, 60)} under {show_formula(fm)}")
@@ -246,22 +270,24 @@ def weights(rc):
         rc.fail(f, f.node, "weights start at 1", construct="weight init")
     # the weight factor of a node with parents is the evidence state's entry of that row's conditional
     for s in w_sites:
-        t = norm(s.node.value, 400)
-        if any(isinstance(tt, ast.Name) and tt.id == "evidence" and pol for tt, pol in s.conds):
-            if "index_to_weight[weight_index[i]][evidence_value]" not in t.replace(" ", "").replace("\n", "") and "index_to_weight[weight_index[i]][evidence_value]" not in t:
+        if any(isinstance(tt, ast.Name) and tt.id in par_names and pol for tt, pol in s.conds):
+            okw = any(tm.is_(s.node.value, "np.array(list(map(lambda _i: _IW[_WI[_i]][_EV], range(size))))", {"_EV": ev}) is not None for ev in ev_vals) or \
+                tm.is_(s.node.value, "np.array(list(map(lambda _i: _IW[_WI[_i]][_ED[_n]], range(size))))", {"_ED": ED, "_n": NODE}) is not None
+            if not okw:
                 rc.fail(f, s.node, "the weight factor must be P(evidence value | that sample's parent configuration)", construct="weight factor")
     # rejection sampling
     r = repo.func(SP, "BayesianModelSampling.rejection_sample")
     txt = norm(r.node, 100000)
     filt = [n for n in walk_no_nested(r.node) if isinstance(n, ast.For) and norm(n.iter) == "evidence"]
-    okf = any("_sampled[_sampled[var] == state]" in norm(n, 500) for n in filt)
+    okf = any(tm.is_(n, "for _v, _s in evidence:\n    _X = _X[_X[_v] == _s]") is not None for n in filt)
     rc.ob(f"rejection_sample keeps only rows matching every evidence pair: {okf}")
     if not okf:
         rc.fail(r, r.node, "rejection sampling must keep exactly the rows that agree with every evidence pair", construct="rejection filter")
     if ".iloc[:size, :]" not in txt and ".iloc[:size]" not in txt and ".head(size)" not in txt:
         rc.fail(r, r.node, "exactly `size` rows must be returned", construct="rejection truncate")
     wl = [n for n in walk_no_nested(r.node) if isinstance(n, ast.While)]
-    if not wl or norm(wl[0].test) != "i < size":
+    bw = tm.is_(wl[0].test, "_i < size") if wl else None
+    if bw is None or not tm.has(wl[0], "_i += _X.shape[0]", bw):
         rc.fail(r, r.node, "sampling continues until `size` accepted rows exist", construct="rejection loop")
     inner = [c for c in calls_named(r, "forward_sample") if any(isinstance(p, ast.While) for p in _parents(c))]
     for c in inner:
@@ -307,21 +333,39 @@ def weights(rc):
             if not zips:
                 rc.fail(k, lp, f"{q}: cannot find where the configuration tuple is paired with the variables", construct=f"{q} zip")
     rs = repo.module(SB).functions["_return_samples"]
-    if "samples[var].map(state_names_map[var])" not in norm(rs.node, 5000):
+    if not tm.has(rs.node, "_S[_v] = _S[_v].map(_M[_v])", {"_S": rs.params[0], "_M": rs.params[1]}):
         rc.fail(rs, rs.node, "each column is mapped through its own variable's number->name table", construct="_return_samples")
     # Gibbs kernels
     for q in ("GibbsSampling._get_kernel_from_bayesian_model", "GibbsSampling._get_kernel_from_markov_model"):
         k = repo.func(SP, q)
-        t = norm(k.node, 100000)
-        okk = "kernel[tup] = reduced_factor.values / sum(reduced_factor.values)" in t and "inplace=False" in t
-        rc.ob(f"{q}: kernel rows normalised, factor reduced out of place: {okk}")
+        okk = False
+        okf = oks = False
+        for lp in [n for n in walk_no_nested(k.node) if isinstance(n, ast.For) and tm.is_(n.iter, "self.variables") is not None and isinstance(n.target, ast.Name)]:
+            VAR = lp.target.id
+            for n_, b_ in tm.find_all(lp, "_K[_t] = _RF.values / sum(_RF.values)"):
+                _, b2 = tm.find(lp, "_RF = _F.reduce(_ST, inplace=False)", b_)
+                if b2 is None:
+                    continue
+                okk = True
+                # all factors that mention the variable
+                if tm.find(lp, "_FS = [_c.to_factor() for _c in model.cpds if _v in _c.scope()]", {"_v": VAR})[1] is not None and tm.has(lp, "_F = factor_product(*_FS)", b2):
+                    okf = True
+                _, b3 = tm.find(lp, "_F = _FD[_v]", dict(b2, _v=VAR))
+                if b3 is not None:
+                    for l2 in [x for x in walk_no_nested(k.node) if isinstance(x, ast.For)]:
+                        b4 = tm.is_(l2, "for _f in model.get_factors():\n    for _w in _f.scope():\n        _FD[_w].append(_f)", {"_FD": b3["_FD"]})
+                        if b4 is not None:
+                            okf = True
+                _, b5 = tm.find(lp, "_SC = set(_F.scope())", b2)
+                if b5 is not None and tm.find(lp, "_ST = [State(_a, _s) for _a, _s in zip(_OV, _t) if _a in _SC]", b5)[1] is not None:
+                    oks = True
+        rc.ob(f"{q}: kernel rows normalised, factor reduced out of place: {okk}; all factors of the variable {okf}; reduced inside scope {oks}")
         if not okk:
             rc.fail(k, k.node, "each kernel row must be the reduced factor normalised to one (and the model's factors untouched)", construct=f"{q} kernel")
-        if "if var in cpd.scope()" not in t and "for var in factor.scope()" not in t:
+        if not okf:
             rc.fail(k, k.node, "the kernel of a variable must multiply ALL factors that mention it", construct=f"{q} factors")
-        if "if v in scope" not in t and "if first_var in scope" not in t:
+        if not oks:
             rc.fail(k, k.node, "only the other variables inside the factor's scope may be reduced", construct=f"{q} reduce scope")
-
 
 def _parents(n):
     p = getattr(n, "_parent", None)
